@@ -19,10 +19,10 @@ import (
 
 // Well-known package paths of the repository under analysis.
 const (
-	PkgBttest = "github.com/fullstorydev/emulators/bigtable/bttest"
-	PkgCbtemu = "github.com/fullstorydev/emulators/bigtable/cmd/cbtemulator"
-	PkgGcsemu = "github.com/fullstorydev/emulators/storage/gcsemu"
-	PkgGcsutil = "github.com/fullstorydev/emulators/storage/gcsutil"
+	PkgBttest    = "github.com/fullstorydev/emulators/bigtable/bttest"
+	PkgCbtemu    = "github.com/fullstorydev/emulators/bigtable/cmd/cbtemulator"
+	PkgGcsemu    = "github.com/fullstorydev/emulators/storage/gcsemu"
+	PkgGcsutil   = "github.com/fullstorydev/emulators/storage/gcsutil"
 	PkgGcsemuCmd = "github.com/fullstorydev/emulators/storage/cmd/gcsemulator"
 )
 
@@ -47,6 +47,9 @@ type Program struct {
 	// Stats
 	NumFiles int
 	NumFuncs int
+	// alias: frozen anchor name -> the function that carries that role today (renames)
+	alias      map[string]*ssa.Function
+	AliasNotes []string
 }
 
 // BrokenError signals that the check itself cannot give a verdict (load
@@ -147,6 +150,7 @@ func Load(root string, modules []string, overlay map[string][]byte) (*Program, e
 			prog.NumFuncs++
 		}
 	}
+	prog.resolveAnchors()
 	return prog, nil
 }
 
@@ -165,6 +169,13 @@ func (p *Program) Pos(pos token.Pos) string {
 
 // Func looks up a package-level function or a method ("(*T).M" / "T.M").
 func (p *Program) Func(pkgPath, name string) *ssa.Function {
+	if f := p.alias[pkgPath+"\x00"+name]; f != nil {
+		return f
+	}
+	return p.funcByName(pkgPath, name)
+}
+
+func (p *Program) funcByName(pkgPath, name string) *ssa.Function {
 	sp := p.SPkgs[pkgPath]
 	if sp == nil {
 		return nil
@@ -283,6 +294,16 @@ func (p *Program) FuncDecl(pkgPath, name string) *ast.FuncDecl {
 // FuncName gives a stable, line-free name of an SSA function, e.g.
 // "(*server).ReadRows$1".
 func FuncName(f *ssa.Function) string {
+	if f == nil {
+		return "<nil>"
+	}
+	if c, ok := canonByFn[f]; ok {
+		return c // a renamed anchor keeps its frozen name in constructs and tables
+	}
+	return rawFuncName(f)
+}
+
+func rawFuncName(f *ssa.Function) string {
 	if f == nil {
 		return "<nil>"
 	}
